@@ -23,6 +23,14 @@ def handle (op : String) (args : List String) : Option String :=
     match pMesh args with
     | some (m, []) => some (boolStr (decide (MeshVal.WF m)))
     | _ => some "false"
+  else if op == "c02.holds.polygon_idx" then
+    -- args: pathLen sides closed verts n idx… : the implementation's extrude.polygon output is the Lean
+    -- generator for the winding flags read off the output itself (predicate of theorem extrudePolygon_wf)
+    match args.mapM String.toNat? with
+    | some (pl :: sd :: cl :: verts :: n :: idx) =>
+      let flips := polygonFlipsOf pl sd (cl != 0) idx
+      some (boolStr (idx.length == n && verts == polygonVerts pl sd && polygonTris pl sd (cl != 0) flips == idx))
+    | _ => some "false"
   else if op.startsWith "c02.op." then
     let name := (op.drop 7).toString
     (applyOp name args).map (showResults name)
